@@ -198,4 +198,217 @@ theorem mem_keys_mk (uris : List Str) (u : Str) : u ∈ keys (mk uris) ↔ u ∈
     simp only [keys, List.mem_map]
     exact ⟨_, this, rfl⟩
 
+/-! ### `fromUri` -/
+
+/-- The head of a split is the part before the first separator. -/
+theorem splitOn_head_takeWhile {α} [DecidableEq α] (c : α) (l : List α) :
+    ∃ t, splitOn c l = l.takeWhile (· ≠ c) :: t := by
+  induction l with
+  | nil => exact ⟨[], by simp [splitOn]⟩
+  | cons x xs ih =>
+    obtain ⟨t, ht⟩ := ih
+    by_cases hx : x = c
+    · exact ⟨splitOn c xs, by simp [splitOn, hx]⟩
+    · exact ⟨t, by simp [splitOn, hx, ht]⟩
+
+theorem fromUri_ns_takeWhile (uri : Str) : (fromUri uri).ns = uri.takeWhile (· ≠ '?') := by
+  obtain ⟨t, ht⟩ := splitOn_head_takeWhile '?' uri
+  unfold fromUri
+  rw [ht]
+  cases t <;> rfl
+
+/-! ### `abbreviate` -/
+
+/-- `ver ++ rest` splits with head `ver` when `rest` is empty or starts with the separator. -/
+theorem splitOn_append_rest {α} [DecidableEq α] (c : α) (ver rest : List α) (h : c ∉ ver)
+    (hr : rest = [] ∨ ∃ r, rest = c :: r) : ∃ t, splitOn c (ver ++ rest) = ver :: t := by
+  rcases hr with rfl | ⟨r, rfl⟩
+  · exact ⟨[], by rw [List.append_nil, splitOn_no_sep c ver h]⟩
+  · exact ⟨splitOn c r, splitOn_append_sep c ver r h⟩
+
+/-- What `abbrevParts` computes on the `:`-split of the text `r` after the prefix, as a grammar. -/
+theorem mem_abbrevParts_iff (r key : Str) :
+    (∃ l, abbrevParts (splitOn ':' r) = some l ∧ key ∈ l) ↔
+      (∃ name ver rest, ':' ∉ name ∧ ':' ∉ ver ∧ (rest = [] ∨ ∃ r', rest = ':' :: r') ∧
+          r = sCapability ++ ':' :: (name ++ ':' :: (ver ++ rest)) ∧
+          (key = ':' :: name ∨ key = ':' :: name ++ ':' :: ver)) ∨
+      (∃ ver rest, ':' ∉ ver ∧ (rest = [] ∨ ∃ r', rest = ':' :: r') ∧
+          r = sBase ++ ':' :: (ver ++ rest) ∧
+          (key = sColonBase ∨ key = sColonBase ++ ':' :: ver)) := by
+  constructor
+  · rintro ⟨l, hl, hk⟩
+    -- first piece
+    cases hs : splitOn ':' r with
+    | nil => exact absurd hs (splitOn_ne_nil _ _)
+    | cons h t =>
+    obtain ⟨hh, hcase⟩ := splitOn_cons_inv _ _ _ _ hs
+    rw [hs] at hl
+    rcases hcase with ⟨rfl, -⟩ | ⟨l1, rfl, hs1⟩
+    · simp [abbrevParts] at hl
+    -- second piece
+    cases t with
+    | nil => exact absurd hs1 (splitOn_ne_nil _ _)
+    | cons a t =>
+    obtain ⟨ha, hcase1⟩ := splitOn_cons_inv _ _ _ _ hs1
+    have hrest1 : ∃ rest, (rest = [] ∨ ∃ r', rest = ':' :: r') ∧ l1 = a ++ rest := by
+      rcases hcase1 with ⟨-, rfl⟩ | ⟨l2, rfl, -⟩
+      · exact ⟨[], Or.inl rfl, by simp⟩
+      · exact ⟨':' :: l2, Or.inr ⟨l2, rfl⟩, rfl⟩
+    simp only [abbrevParts] at hl
+    split at hl
+    · rename_i hcap
+      subst hcap
+      -- third piece needed
+      cases t with
+      | nil => simp at hl
+      | cons b t =>
+      simp only [Option.some.injEq] at hl
+      subst hl
+      rcases hcase1 with ⟨hnil, -⟩ | ⟨l2, rfl, hs2⟩
+      · simp at hnil
+      obtain ⟨hb, hcase2⟩ := splitOn_cons_inv _ _ _ _ hs2
+      have hrest2 : ∃ rest, (rest = [] ∨ ∃ r', rest = ':' :: r') ∧ l2 = b ++ rest := by
+        rcases hcase2 with ⟨-, rfl⟩ | ⟨l3, rfl, -⟩
+        · exact ⟨[], Or.inl rfl, by simp⟩
+        · exact ⟨':' :: l3, Or.inr ⟨l3, rfl⟩, rfl⟩
+      obtain ⟨rest, hrest, rfl⟩ := hrest2
+      refine Or.inl ⟨a, b, rest, ha, hb, hrest, rfl, ?_⟩
+      simpa using hk
+    · split at hl
+      · rename_i hbase
+        subst hbase
+        simp only [Option.some.injEq] at hl
+        subst hl
+        obtain ⟨rest, hrest, rfl⟩ := hrest1
+        refine Or.inr ⟨a, rest, ha, hrest, rfl, ?_⟩
+        simpa using hk
+      · simp at hl
+  · rintro (⟨name, ver, rest, hn, hv, hrest, rfl, hk⟩ | ⟨ver, rest, hv, hrest, rfl, hk⟩)
+    · obtain ⟨t, ht⟩ := splitOn_append_rest ':' ver rest hv hrest
+      have hc : ':' ∉ sCapability := by decide
+      refine ⟨[':' :: name, ':' :: name ++ ':' :: ver], ?_, by simpa using hk⟩
+      rw [splitOn_append_sep _ _ _ hc, splitOn_append_sep _ _ _ hn, ht]
+      simp [abbrevParts]
+    · obtain ⟨t, ht⟩ := splitOn_append_rest ':' ver rest hv hrest
+      have hc : ':' ∉ sBase := by decide
+      have hne : sBase ≠ sCapability := by decide
+      refine ⟨[sColonBase, sColonBase ++ ':' :: ver], ?_, by simpa using hk⟩
+      rw [splitOn_append_sep _ _ _ hc, ht]
+      simp [abbrevParts, hne]
+
+/-- The loop body of `_abbreviate` for one prefix. -/
+theorem abbrev_body_eq_some (p ns : Str) (l : List Str) :
+    (if p.isPrefixOf ns then abbrevParts (splitOn ':' (ns.drop p.length)) else none) = some l ↔
+      ∃ r, ns = p ++ r ∧ abbrevParts (splitOn ':' r) = some l := by
+  constructor
+  · intro h
+    split at h
+    · rename_i hp
+      obtain ⟨r, rfl⟩ := List.isPrefixOf_iff_prefix.mp hp
+      rw [List.drop_left] at h
+      exact ⟨r, rfl, h⟩
+    · simp at h
+  · rintro ⟨r, rfl, h⟩
+    have hp : p.isPrefixOf (p ++ r) = true := List.isPrefixOf_iff_prefix.mpr (List.prefix_append p r)
+    rw [if_pos hp, List.drop_left]
+    exact h
+
+/-- The two IETF prefixes are never both a prefix of the same string. -/
+theorem pfx_exclusive (ns : Str) (h1 : pfxXml <+: ns) (h2 : pfxNc <+: ns) : False := by
+  have : pfxNc <+: pfxXml := List.prefix_of_prefix_length_le h2 h1 (by decide)
+  revert this
+  decide
+
+theorem mem_abbreviate_iff (key ns : Str) :
+    key ∈ abbreviate ns ↔
+      ∃ p ∈ prefixes, ∃ r, ns = p ++ r ∧ ∃ l, abbrevParts (splitOn ':' r) = some l ∧ key ∈ l := by
+  have body := fun p l => abbrev_body_eq_some p ns l
+  unfold abbreviate
+  simp only [prefixes, List.findSome?_cons, List.findSome?_nil]
+  constructor
+  · intro h
+    split at h
+    · rename_i l hl
+      obtain ⟨r, hr, hl'⟩ := (body _ _).mp hl
+      exact ⟨pfxXml, by simp, r, hr, l, hl', by simpa using h⟩
+    · split at h
+      · rename_i l hl
+        obtain ⟨r, hr, hl'⟩ := (body _ _).mp hl
+        exact ⟨pfxNc, by simp, r, hr, l, hl', by simpa using h⟩
+      · simp at h
+  · rintro ⟨p, hp, r, hr, l, hl, hk⟩
+    have hpl := (body p l).mpr ⟨r, hr, hl⟩
+    simp only [List.mem_cons, List.not_mem_nil, or_false] at hp
+    rcases hp with rfl | rfl
+    · rw [hpl]; simpa using hk
+    · have hx : pfxXml.isPrefixOf ns = false := by
+        cases hx : pfxXml.isPrefixOf ns with
+        | false => rfl
+        | true =>
+          exact (pfx_exclusive ns (List.isPrefixOf_iff_prefix.mp hx) ⟨r, hr.symm⟩).elim
+      rw [hx]
+      simp only [Bool.false_eq_true, if_false]
+      rw [hpl]; simpa using hk
+
+/-! ### `getItem` on shorthand keys -/
+
+theorem getItem_mk_shorthand (uris : List Str) (key : Str) (c : Cap) (h : key ∉ uris)
+    (hc : getItem (mk uris) key = .ok c) :
+    ∃ u ∈ uris, c = fromUri u ∧ key ∈ abbreviate (fromUri u).ns := by
+  unfold getItem at hc
+  rw [dictGet_mk, if_neg h] at hc
+  simp only at hc
+  split at hc
+  · rename_i c' hf
+    cases hc
+    have hmem := List.mem_of_find?_eq_some hf
+    have hprop := List.find?_some hf
+    simp only [List.mem_map] at hmem
+    obtain ⟨p, hp, rfl⟩ := hmem
+    obtain ⟨h2, h1⟩ := mk_inv uris p hp
+    refine ⟨p.1, h1, h2, ?_⟩
+    rw [← h2]
+    simpa using hprop
+  · cases hc
+
+theorem getItem_mk_of_abbrev (uris : List Str) (key u : Str) (hu : u ∈ uris)
+    (hk : key ∈ abbreviate (fromUri u).ns) : ∃ c, getItem (mk uris) key = .ok c := by
+  unfold getItem
+  split
+  · exact ⟨_, rfl⟩
+  · split
+    · exact ⟨_, rfl⟩
+    · rename_i hnone
+      exfalso
+      have hget := dictGet_mk uris u
+      rw [if_pos hu] at hget
+      have hmem := dictGet_some_mem _ _ _ hget
+      rw [List.find?_eq_none] at hnone
+      have := hnone (fromUri u) (List.mem_map.mpr ⟨_, hmem, rfl⟩)
+      simp [hk] at this
+
+/-! ### `parseParams` -/
+
+/-- A fold of `dictSet` over optional pairs looks up as the last matching pair. -/
+theorem dictGet_foldl_pairs {α κ ν} [DecidableEq κ] (f : α → Option (κ × ν))
+    (step : List (κ × ν) → α → List (κ × ν))
+    (hstep : ∀ d x, step d x = match f x with
+      | some p => dictSet d p.1 p.2
+      | none => d)
+    (L : List α) (d : List (κ × ν)) (k : κ) :
+    dictGet (L.foldl step d) k =
+      (((L.filterMap f).reverse.find? (fun p => p.1 = k)).map Prod.snd).or (dictGet d k) := by
+  induction L generalizing d with
+  | nil => simp
+  | cons x xs ih =>
+    rw [List.foldl_cons, ih, hstep]
+    cases hf : f x with
+    | none => simp [hf]
+    | some p =>
+      simp only [List.filterMap_cons, hf, List.reverse_cons, List.find?_append, dictGet_dictSet]
+      cases (List.find? (fun p => decide (p.1 = k)) (List.filterMap f xs).reverse) with
+      | some q => simp
+      | none =>
+        by_cases hpk : p.1 = k <;> simp [hpk]
+
 end NcVerif
